@@ -50,7 +50,16 @@ def tuple_family(rng, quick):
         {"a": [(1, 0, -4)], "b": [(1, 0, 2)], "c": [(1, 0, -8)]},
         {"a": [(1, 0, 3)], "b": [(1, 0, -1)], "c": [(1, 0, -3)]},
     ]
-    bases = [2, 3, 4, 8, 9, F(1, 2), F(1, 3), -1, -2, 6, F(2, 3), 1]
+    # more primes (and a sign) than bases: every prime / parity equation must be applied to the kernel
+    fams += [
+        {"a": [(1, 0, F(2, 3))], "b": [(1, 0, F(10, 3))]},
+        {"a": [(1, 0, F(10, 3))], "b": [(1, 0, F(2, 3))]},
+        {"a": [(1, 0, 6)], "b": [(1, 0, 30)], "c": [(1, 0, 210)]},
+        {"a": [(1, 0, F(-6, 35))], "b": [(1, 0, F(6, 35))]},
+        {"a": [(1, 0, 30)], "b": [(1, 0, F(15, 2))], "c": [(1, 0, 4)]},
+        {"a": [(1, 0, F(14, 15))], "b": [(1, 0, F(-21, 10))], "c": [(1, 0, F(4, 9))]},
+    ]
+    bases = [2, 3, 4, 8, 9, F(1, 2), F(1, 3), -1, -2, 6, F(2, 3), 1, 30, F(10, 3), F(6, 35), F(-15, 2)]
     for _ in range(6 if quick else 80):
         k = rng.randint(2, 3)
         fam = {}
@@ -113,6 +122,9 @@ PROGRAMS = [
     ("mixed", "x = 1\ns = 0\nwhile true:\n    s = s + x\n    x = 3*x\nend\n", ["x", "s"]),
     ("coin", "x = 0\nf = 0\nwhile true:\n    f = Bernoulli(1/2)\n    x = x + f\nend\n", ["E(x)", "E(f)", "c2(x)"]),
     ("alt", "x = 1\ny = 0\nwhile true:\n    x = -x\n    y = y + x\nend\n", ["x", "y"]),
+    ("sym_scaled", "x = a\ny = c\nz = a*c\nwhile true:\n    x = 3*x\n    y = 3*y\n    z = 9*z\nend\n", ["x", "y", "z"], {"a": "2", "c": "5"}),
+    ("sym_offsets", "x = a\ny = 2*a + 1\nwhile true:\n    x = 2*x\n    y = 2*y\nend\n", ["x", "y"], {"a": "3"}),
+    ("sym_walk", "x = a\ny = b\nwhile true:\n    x = x + 1 {1/2} x - 1\n    y = y + 2 {1/2} y - 2\nend\n", ["E(x)", "E(y)", "c2(x)", "c2(y)"], {"a": "1", "b": "-2"}),
     ("nilp", "x, y, z = 1, 2, 3\nwhile true:\n    x = y\n    y = z\n    z = 0\nend\n", ["x", "y"]),
 ]
 
@@ -133,8 +145,9 @@ def scale_terms(terms):
 def collect(run, quick, rng, N):
     """runs Polar on all subjects; returns list of subjects with program, goals, K, basis"""
     jobs, subjects = [], {}
-    for name, text, goals in PROGRAMS:
-        jobs.append({"kind": "invariants", "id": "prog-" + name, "text": text, "goals": goals, "N": 6, "timeout": 200})
+    for name, text, goals, *pt in PROGRAMS:
+        jobs.append({"kind": "invariants", "id": "prog-" + name, "text": text, "goals": goals, "N": 6, "timeout": 200,
+                     "point": pt[0] if pt else {}})
         subjects["prog-" + name] = {"text": text, "goal_names": goals}
     fams = tuple_family(rng, quick)
     for i, fam in enumerate(fams):
@@ -148,10 +161,23 @@ def collect(run, quick, rng, N):
             jobs.append({"kind": "invariants", "id": sid, "closed_forms": {g: cf_text(t) for g, t in fam.items()},
                          "N": 6, "timeout": 200, "burn_names": burn})
             subjects[sid] = {"fam": fam}
+    # the same set of closed forms in another ORDER was analysed before in the same process
+    for i, fam in enumerate(fams[:30]):
+        names = list(fam)
+        if len(names) < 2:
+            continue
+        rot = {names[j]: fam[names[(j + 1) % len(names)]] for j in range(len(names))}
+        if rot == fam:
+            continue
+        sid = f"tuple-{i}-afterrotated"
+        jobs.append({"kind": "invariants", "id": sid, "closed_forms": {g: cf_text(t) for g, t in fam.items()}, "N": 6, "timeout": 200,
+                     "pre": [{g: cf_text(t) for g, t in rot.items()}], "fresh": True})
+        subjects[sid] = {"fam": fam}
     # parsed programs (abstract syntax) for the program subjects come from an analyze job
-    ajobs = [{"kind": "analyze", "id": "prog-" + name, "text": text, "goals": [], "points": [{}], "N": 0, "want": ["parsed"],
-              "timeout": 100} for name, text, _ in PROGRAMS]
-    res = pool.run_jobs(jobs, per_job_timeout=200)
+    ajobs = [{"kind": "analyze", "id": "prog-" + name, "text": text, "goals": [], "points": [pt[0] if pt else {}], "N": 0, "want": ["parsed"],
+              "timeout": 100} for name, text, _, *pt in PROGRAMS]
+    res = pool.run_jobs([j for j in jobs if not j.get("fresh")], per_job_timeout=200)
+    res.update(pool.run_jobs([j for j in jobs if j.get("fresh")], per_job_timeout=200, fresh_each=True))
     ares = pool.run_jobs(ajobs, per_job_timeout=100)
     out = []
     for sid, sub in subjects.items():
